@@ -366,6 +366,8 @@ class _Redirector:
                 os.dup2(self._old_stderr, 2)
                 os.close(self._new_stdout)
                 os.close(self._new_stderr)
+                os.close(self._old_stdout)
+                os.close(self._old_stderr)
         else:
             yield
 
